@@ -329,9 +329,15 @@ func specialDoc(r *core.Rand, k int) string {
 	case 0: // deep nesting
 		n := r.Range(50, 200)
 		return strings.Repeat(`[{"a":`, n) + `1` + strings.Repeat(`}]`, n)
-	case 1: // long sibling list
+	case 1: // long sibling list; now and then beyond 2^16 siblings, nested one level down
 		n := r.Range(100, 1500)
+		if r.Chance(1, 12) {
+			n = r.Range(65530, 66100)
+		}
 		var sb strings.Builder
+		if n > 60000 {
+			sb.WriteString(`{"list":`)
+		}
 		sb.WriteString("[")
 		for i := 0; i < n; i++ {
 			if i > 0 {
@@ -340,6 +346,9 @@ func specialDoc(r *core.Rand, k int) string {
 			sb.WriteString(strconv.Itoa(i))
 		}
 		sb.WriteString("]")
+		if n > 60000 {
+			sb.WriteString(`,"after":[true]}`)
+		}
 		return sb.String()
 	case 2: // empty containers inside non-empty ones
 		return `[[],{},[[]],{"a":{}},{"b":[]},[{}],[] , {} ]`
@@ -606,7 +615,7 @@ func around(ts []tok, i int) []tok {
 func init() {
 	core.Register(&core.Monitor{
 		Prop:    "C17",
-		Rule:    "valid-docs: generated valid documents (random grammar with hostile spellings, plus deep nesting to 200, sibling lists to 1500, empty containers in non-empty ones, keys after nested objects): concatenated Values == encoding/json.Compact; every non-comma/colon token is matched with encoding/json.Decoder.Token (UseNumber) and Depth/Index/IsKey compared with the values derived from that stream; Value must be the sub-slice of the input ending Remaining() bytes before its end (pointer identity); Kind (Undefined on commas, colons and closing delimiters), RawValue predicates, String/Unquote/AppendUnquote, Int/Uint/Float/Bool compared with std's decoded token. arbitrary + token-sequences (all sequences of 2-4 tokens over a 40-token alphabet): no panic, at most len+1 successful Next, Next stays false and Err stays set after an error; documents std accepts also go through the exact-stream check. histories: Reset after 1-3 earlier documents (consumed fully / partially / to an error, other tokenizers sharing the stack pool in between) must give the same stream as a new tokenizer; a tokenizer paused mid-document while others run must give its solo stream. Distinct by document hash; non-trivial = non-empty.",
+		Rule:    "valid-docs: generated valid documents (random grammar with hostile spellings, plus deep nesting to 200, sibling lists to 1500 and now and then beyond 65536, empty containers in non-empty ones, keys after nested objects): concatenated Values == encoding/json.Compact; every non-comma/colon token is matched with encoding/json.Decoder.Token (UseNumber) and Depth/Index/IsKey compared with the values derived from that stream; Value must be the sub-slice of the input ending Remaining() bytes before its end (pointer identity); Kind (Undefined on commas, colons and closing delimiters), RawValue predicates, String/Unquote/AppendUnquote, Int/Uint/Float/Bool compared with std's decoded token. arbitrary + token-sequences (all sequences of 2-4 tokens over a 40-token alphabet): no panic, at most len+1 successful Next, Next stays false and Err stays set after an error; documents std accepts also go through the exact-stream check. histories: Reset after 1-3 earlier documents (consumed fully / partially / to an error, other tokenizers sharing the stack pool in between) must give the same stream as a new tokenizer; a tokenizer paused mid-document while others run must give its solo stream. Distinct by document hash; non-trivial = non-empty.",
 		Trusted: []string{"encoding/json (go1.23.5): Decoder.Token, Compact, Unmarshal of string tokens, Valid", "strconv for number values", "the depth/index/key tracker in mon/c17.refTokens"},
 		Subs: []core.Sub{
 			{Name: "valid-docs", N: core.Const(30000, 400000), Run: runValidDocs},
